@@ -402,6 +402,7 @@ fn parse_rules(schema: &str) -> Vec<RuleLine> {
     let mut generic_stack: Vec<String> = Vec::new();
     let mut last_ident = String::new();
     let mut paren_stack: Vec<bool> = Vec::new();
+    let mut containers: Vec<char> = Vec::new();
     let cs: Vec<char> = rhs.chars().collect();
     let mut i = 0;
     while i <= cs.len() {
@@ -422,6 +423,26 @@ fn parse_rules(schema: &str) -> Vec<RuleLine> {
         if !cur.is_empty() {
           let id = cur.trim_end_matches(['.', '-']).to_string();
           // a control operator (".size") is written with a leading dot and never collected
+          // a bare name as an entry of a map ({ g } / { g<T> } / { ? g, k: v }) includes a group: it consumes no
+          // member by itself, so it is as unguarded as a plain alias
+          let bare_map_entry = !id.is_empty() && containers.last() == Some(&'{') && paren_stack.is_empty() && {
+            let end = i;
+            let start = end.saturating_sub(cur.chars().count());
+            let before: String = cs[..start].iter().collect::<String>().trim_end().to_string();
+            let mut after: String = cs[end.min(cs.len())..].iter().collect::<String>().trim_start().to_string();
+            if after.starts_with('<') {
+              if let Some(p) = after.find('>') {
+                after = after[p + 1..].trim_start().to_string();
+              }
+            }
+            let key_before = before.ends_with(':') || before.ends_with("=>") || before.ends_with('.') || before.ends_with('/') && !before.ends_with("//");
+            let key_after = after.starts_with(':') || after.starts_with("=>") || after.starts_with('^') || after.starts_with('.') || after.starts_with('/') && !after.starts_with("//");
+            !key_before && !key_after
+          };
+          if bare_map_entry {
+            unguarded.push(id.clone());
+            mediated.push(id.clone());
+          }
           if depth == 0 && !id.is_empty() {
             unguarded.push(id.clone());
             // what surrounds the reference?
@@ -453,8 +474,14 @@ fn parse_rules(schema: &str) -> Vec<RuleLine> {
             in_str = true;
             quote_char = c;
           }
-          '[' | '{' => depth += 1,
-          ']' | '}' => depth -= 1,
+          '[' | '{' => {
+            depth += 1;
+            containers.push(c);
+          }
+          ']' | '}' => {
+            depth -= 1;
+            containers.pop();
+          }
           // a parenthesis guards only when it is a group with member keys (it then consumes a map entry);
           // a parenthesised type is mere grouping
           '(' => {
